@@ -212,8 +212,8 @@ Print Assumptions C17_replay_of_replay.
    sorted docs (the default) also the position table and the docs blocks, i.e. the whole sealed
    form; DocsTotal is the number of first deliveries. (With SkipSortDocs the sealed form keeps the
    active fraction's position map and blocks, which C17_fetch_first_delivery characterises.)
-   What "every ID listed once" means for the LID table is stated by C17_sealed_ids_first_deliveries
-   below (partial). *)
+   What "every ID listed once" means for the LID table is stated by C17_seal_lists_each_id_once
+   below. *)
 Theorem C17_seal_preserves :
   forall cfg h, Forall bulk_wf h ->
     let s := seal cfg (run_active h) in let s' := seal cfg (run_active (dedupb h)) in
@@ -223,14 +223,6 @@ Theorem C17_seal_preserves :
     s_total s = N.of_nat (length (first_deliveries (map (map fst) h))).
 Proof. exact seal_preserves_eq. Qed.
 Print Assumptions C17_seal_preserves.
-
-(* FULL statement not proved (kept as a comment): under has_all h,
-     Permutation (tl (s_ids (seal cfg (run_active h)))) (map m_id (first_deliveries (map (map fst) h)))
-   i.e. the sealed LID table lists every first-delivered meta exactly once. Proved here: every LID
-   the all-token lists is in range and every first-delivered ID is found in the sealed table
-   (used by the fetch theorem); missing: NoDup of the sorted all-token postings (sortedness of
-   insert_lid + adjacent removal), which would give the permutation. The correspondence run checks
-   the full statement on every sealed dump (sdump_spec_ok: table = system entry :: sort_desc ids). *)
 
 (* Fetch from the sealed form serves the FIRST delivery: for every history of well formed bulks in
    which every meta carries the all-token, every seal configuration (sorted docs with any block
@@ -245,16 +237,13 @@ Theorem C17_sealed_fetch_first_delivery :
 Proof. exact sealed_fetch_first. Qed.
 Print Assumptions C17_sealed_fetch_first_delivery.
 
-(* All forms, history vs. repeat-free history. PARTIAL: the FULL statement would also say that a
-   single-token search (listed IDs, total, histogram, aggregation) on the sealed form equals the
-   search on the active form:
-     forall iv gt t, search_frac iv gt (sealed_view (seal cfg a)) t = search_frac iv gt (uniq_tok a) t
-   (needs: sort_lids is a permutation, new_lid is injective on the all-token's LIDs, hist_add
-   commutes). Proved: the replayed state IS the live state; DocsTotal/From/To agree across live
-   active, replayed active, sealed, reloaded sealed, and the sealed form of the repeat-free history;
-   fetch returns the first delivery's bytes in all five; and within each form (active; sealed;
-   reloaded) every search observable of the history equals that of the repeat-free history.
-   Active-vs-sealed search equality is compared by the correspondence run on every history. *)
+(* All forms, history vs. repeat-free history — the part that needs no comparison BETWEEN the
+   active and the sealed numbering (kept under its first name; C17_idempotent_all_forms below is the
+   full statement and implies the search clauses of this one up to GetLIDs' duplicate removal):
+   the replayed state IS the live state; DocsTotal/From/To agree across live active, replayed
+   active, sealed, reloaded sealed, and the sealed form of the repeat-free history; fetch returns
+   the first delivery's bytes in all five; and within each form (active with its raw queues;
+   sealed; reloaded) every search observable of the history equals that of the repeat-free history. *)
 Theorem C17_idempotent_all_forms_partial :
   forall cfg h, Forall bulk_wf h -> has_all h ->
     let a := run_active h in let a' := run_active (dedupb h) in
@@ -273,6 +262,64 @@ Theorem C17_idempotent_all_forms_partial :
        search_frac iv gt (sealed_view (reload s)) t = search_frac iv gt (sealed_view s) t).
 Proof. exact all_forms. Qed.
 Print Assumptions C17_idempotent_all_forms_partial.
+
+From Coq Require Import Permutation.
+From C17 Require Import ProofsForms.
+
+(* Every ID listed once: for every history of well formed bulks in which every meta carries the
+   all-token and every seal configuration, the sealed LID table is the system entry followed by a
+   PERMUTATION of the IDs of the first deliveries (every first-delivered meta exactly once, a
+   repeat never). From: GetLIDs' output is sorted strictly (ID, LID descending), hence free of
+   duplicates, and the all-token lists exactly the LIDs 1..n. *)
+Theorem C17_seal_lists_each_id_once :
+  forall cfg h, Forall bulk_wf h -> has_all h ->
+    let s := seal cfg (run_active h) in
+    hd sys_id (s_ids s) = sys_id /\
+    Permutation (tl (s_ids s)) (map m_id (first_deliveries (map (map fst) h))).
+Proof. exact seal_lists_once. Qed.
+Print Assumptions C17_seal_lists_each_id_once.
+
+(* All forms, FULL: as C17_idempotent_all_forms_partial for DocsTotal/From/To and fetch, and every
+   single-token search observable — listed IDs, total, histogram, count aggregation, not-exists
+   count, for every interval, group-token list and token — is THE SAME VALUE on the live active
+   fraction (uniq_tok: GetLIDs takes an equal LID once), the replayed active fraction, the sealed
+   form, the reloaded sealed form, the active fraction of the repeat-free history and its sealed
+   form. (sealed_view s is the LID table and postings of the sealed numbering; the proof goes
+   through: sort_lids + adjacent removal is a duplicate-free permutation of the postings, new_lid
+   is injective on the all-token's LIDs and maps a LID to a slot holding its ID, sort_desc and the
+   histogram fold do not depend on the order of the matched LIDs.) *)
+Theorem C17_idempotent_all_forms :
+  forall cfg h, Forall bulk_wf h -> has_all h ->
+    let a := run_active h in let a' := run_active (dedupb h) in
+    let s := seal cfg a in let s' := seal cfg a' in
+    replay h = a /\
+    (a_total a = a_total a' /\ s_total s = a_total a /\ s_total (reload s) = a_total a /\ s_total s' = a_total a) /\
+    (a_from a = a_from a' /\ s_from s = a_from a /\ s_from (reload s) = a_from a /\ s_from s' = a_from a) /\
+    (a_to a = a_to a' /\ s_to s = a_to a /\ s_to (reload s) = a_to a /\ s_to s' = a_to a) /\
+    (forall i, i <> (0, 0)%N ->
+       fetch a i = ref_fetch1 (concat h) i /\ fetch a' i = ref_fetch1 (concat h) i /\
+       sealed_fetch s i = ref_fetch1 (concat h) i /\ sealed_fetch (reload s) i = ref_fetch1 (concat h) i /\
+       sealed_fetch s' i = ref_fetch1 (concat h) i) /\
+    (forall iv gt t,
+       let q := search_frac iv gt (uniq_tok a) t in
+       search_frac iv gt (uniq_tok (replay h)) t = q /\
+       search_frac iv gt (sealed_view s) t = q /\
+       search_frac iv gt (sealed_view (reload s)) t = q /\
+       search_frac iv gt (uniq_tok a') t = q /\
+       search_frac iv gt (sealed_view s') t = q).
+Proof. exact all_forms_full. Qed.
+Print Assumptions C17_idempotent_all_forms.
+
+(* non-vacuity of the cross-form clause: token 2 of ex_h (A's nested meta and B; old LIDs 2, 3, new
+   LIDs 1, 2): the same non-trivial result on the active and on the sealed numbering *)
+Example C17_all_forms_nonvacuous :
+  let a := run_active ex_h in let s := seal (mkCfg false 40) a in
+  search_frac 10 [5; 6]%N (sealed_view s) 2%N = search_frac 10 [5; 6]%N (uniq_tok a) 2%N
+  /\ q_ids (search_frac 10 [5; 6]%N (uniq_tok a) 2%N) = [(1010, 2); (1005, 1)]%N
+  /\ q_hist (search_frac 10 [5; 6]%N (uniq_tok a) 1%N) = [(1000, 2)]%N
+  /\ q_agg (search_frac 10 [5; 6]%N (sealed_view s) 1%N) = [(5, 1); (6, 1)]%N
+  /\ tok_lids (uniq_tok a) 2%N = [2; 3] /\ tok_lids (sealed_view s) 2%N = [1; 2].
+Proof. vm_compute. repeat split. Qed.
 
 (* non-vacuity: ex_h (bulk 2 repeats A with other bytes, bulk 3 repeats bulk 1) satisfies every
    hypothesis, with restarts between the bulks; the sealed forms (sorted docs with a block size
